@@ -12,7 +12,8 @@ RULE = ("put: 0-5 writable + 0-2 read-only fake services (disk/proxy/mixed), wan
         "which in-flight upload answers next ('slow response' = released late), entry points "
         "putReplicas/PutHB/PutB/PutHR (right and wrong hash, wrong and oversize length); plus an exhaustive "
         "enumeration of canonical per-service answer sequences for <=2 (quick) / <=3 (thorough) services; "
-        "upl: single HTTP exchanges through uploadToKeepServer; load: service lists through loadKeepServers. "
+        "upl: single HTTP exchanges through uploadToKeepServer; load: service lists (JSON, as from discovery) through "
+        "LoadKeepServicesFromJSON/loadKeepServers, also for every put case (read-only services of either type). "
         "A put case is non-trivial when at least one answer was processed; distinct = distinct case line")
 ASSUMPTIONS = [
     "the scripted HTTPClient stands for the network: a request whose body cannot be read or has the wrong "
@@ -134,6 +135,10 @@ def _services(rng, nw, nro, kind):
     svcs = []
     for i in range(nw + nro):
         disk = kind == "d" or (kind == "m" and rng.random() < 0.5)
+        if i >= nw and rng.random() < 0.5:
+            # the type of a read-only service is independent of the writable ones (e.g. a read-only
+            # proxy next to writable disks: replicasPerService must stay 1, nothing may be sent to it)
+            disk = rng.random() < 0.5
         svcs.append({"uuid": _uuid(rng), "disk": disk, "writable": i < nw, "outs": []})
     rng.shuffle(svcs)
     return svcs
@@ -291,8 +296,8 @@ def gen_load(rng):
         host = rng.choice(hosts)
         port = rng.choice([25107, 25107, 25107, 443, 0, 65535])
         ssl = rng.choice("001")
-        typ = rng.choice(["disk", "disk", "disk", "proxy", "gateway:x", "-", "Disk"])
-        ro = rng.choice("0001")
+        typ = rng.choice(["disk", "disk", "disk", "proxy", "proxy", "gateway:x", "-", "Disk"])
+        ro = rng.choice("001")
         items.append(f"{u},{host},{port},{ssl},{typ},{ro}")
     return f"load {rng.choice('001')} {';'.join(items) or '-'}"
 
